@@ -32,7 +32,12 @@ BUDGET = {"quick": {"examples": 900, "deadline_s": 110}, "thorough": {"examples"
 @st.composite
 def strategy_(draw, tier):
     big = tier == "thorough"
-    case = draw(gen.model_cases(max_nodes=6 if big else 5, p_node=1, p_opts=0, p_constr=3, p_ignore=4, p_se=4, k_slack=1))
+    if draw(st.integers(0, 2)) == 0:
+        # focus class: DAG models whose node mode has to carry node LENGTHS into the expansion (length-based constraint coverage)
+        case = draw(gen.model_cases(classes=["kPathCover", "MinPathCover", "MinPathCover", "kFlowDecomp", "MinFlowDecomp", "kLeastAbsErrors", "kMinPathError"],
+                                    max_nodes=6 if big else 5, p_node=1, p_opts=0, p_constr=1, p_ignore=6, p_se=6, k_slack=1, p_len=1, p_wild=2))
+    else:
+        case = draw(gen.model_cases(max_nodes=6 if big else 5, p_node=1, p_opts=0, p_constr=2, p_ignore=4, p_se=4, k_slack=1, p_len=2, p_wild=4))
     return case
 
 
